@@ -432,7 +432,7 @@ class Expander:
                 c2 = bool(orelse_) and isinstance(orelse_[-1], (ast.Continue, ast.Return))
                 if c1 != c2:
                     g = self._tr(test_)
-                    self.guard_stack.append(T("not", None, [g]) if c1 else g)
+                    self.guard_stack.append(_neg_guard(g) if c1 else g)
                     pushed += 1
         for _ in range(pushed):
             self.guard_stack.pop()
@@ -620,7 +620,7 @@ class Expander:
             self.guard_stack.append(g)
             e1 = self._block(body_, dict(env))
             self.guard_stack.pop()
-            self.guard_stack.append(T("not", None, [g]))
+            self.guard_stack.append(_neg_guard(g))
             e2 = self._block(orelse_, dict(env))
             self.guard_stack.pop()
             t1, t2 = _terminates(body_), _terminates(orelse_)
@@ -925,6 +925,17 @@ class Expander:
                             zeros = T("mcall", "zeros", [recv, T("tuple", None, [n_, cols])], node=e)
                             return T("mcall", "concatenate", [recv, T("tuple", None, [args[0], zeros])], node=e)
                 return T("mcall", f.attr, [recv] + args, kw, node=e)
+            if isinstance(f, ast.Name) and f.id == "any" and (self.bind.get(id(f)) is None or self.bind.get(id(f)).op == "free") and len(e.args) == 1 and not e.keywords and \
+                    isinstance(e.args[0], (ast.GeneratorExp, ast.ListComp)) and len(e.args[0].generators) == 1 and not e.args[0].generators[0].ifs and \
+                    isinstance(e.args[0].elt, ast.Compare) and len(e.args[0].elt.ops) == 1 and isinstance(e.args[0].elt.ops[0], ast.Eq):
+                # any(E(x) == v for x in L)  is  v in [E(x) for x in L]
+                gen = e.args[0].generators[0]
+                tv = {n_.id for n_ in ast.walk(gen.target) if isinstance(n_, ast.Name)}
+                l_, r_ = e.args[0].elt.left, e.args[0].elt.comparators[0]
+                dep = lambda x_: any(isinstance(n_, ast.Name) and n_.id in tv for n_ in ast.walk(x_))
+                if dep(l_) != dep(r_):
+                    el_, v_ = (l_, r_) if dep(l_) else (r_, l_)
+                    return T("cmp", "in", [self._tr(v_), T("comp", None, [self._tr(el_), self._tr(gen.iter)], node=e.args[0])], node=e)
             if isinstance(f, ast.Name):
                 b = self.bind.get(id(f))
                 if b is not None and b.op not in ("free", "localfn"):
@@ -972,6 +983,15 @@ class Expander:
         if isinstance(e, ast.NamedExpr):
             return self._tr(e.value)
         return T("expr", type(e).__name__, [], node=e)
+
+
+def _neg_guard(g: "T") -> "T":
+    """the negation of a branch condition; a membership / identity test is negated in place (`not (x in L)` is `x not in L`), so that
+    `if x not in L: A` and `if x in L: pass else: A` put A under the same guard"""
+    flip = {"in": "not in", "not in": "in", "is": "is not", "is not": "is"}
+    if g.op == "cmp" and g.name in flip and len(g.args) == 2:
+        return T("cmp", flip[g.name], list(g.args), dict(g.kw), g.node)
+    return T("not", None, [g])
 
 
 def _as_load(t):
